@@ -34,7 +34,63 @@ func (g *cexprGen) blk(d int) string {
 	return "(blk " + strings.Join(items, " ") + ")"
 }
 
+// {call tie.echo [data="all" | data="$e"]}{param k: e /}..{param k}..{/param}..{/call}: the callee is a fixed function of its data (c04StmtEcho; the
+// model's copy is echo_callee / echo_jcall in ocaml/ops_minijs.ml), so that what the generated call passes -- {}, opt_data, the
+// value of an expression, soy.$$augmentMap of one of them with the parameters -- is observable
+func (g *cexprGen) call(d int) string {
+	dt := g.r.Pick([]string{"dnone", "dall", "dall", "(dexpr (cvar " + sx("a") + "))"})
+	if g.r.Chance(5) {
+		dt = "(dexpr " + g.expr(g.r.Intn(4), 1) + ")" // mostly not a map: outside the subset
+	}
+	var ps []string
+	for i := g.r.Intn(3); i > 0; i-- {
+		k := sx(g.r.Pick([]string{"y", "x", "a", "f", "q", "y"}))
+		if d > 0 && g.r.Chance(35) {
+			ps = append(ps, "(pc "+k+" "+g.blk(d-1)+")") // {param k}..{/param}: its statements come before the call
+			continue
+		}
+		ps = append(ps, "(pv "+k+" "+g.expr(g.r.Intn(3), 1)+")")
+	}
+	return "(scall " + sx("tie.echo") + " " + dt + " (" + strings.Join(ps, " ") + "))"
+}
+
+const c04StmtEcho = `tie.echo = function(opt_data, opt_sb, opt_ijData) {
+  var ks = ['a', 'x', 'y', 'f'], r = 'E(';
+  for (var i = 0; i < ks.length; i++) {
+    var v = opt_data[ks[i]];
+    r += ks[i] + '=' + (v === undefined ? 'U' : (v !== null && typeof v === 'object') ? 'O' : String(v)) + ';';
+  }
+  return r + ')';
+};
+`
+
+// {msg desc=".."}..{/msg} without plural: raw text, print and call placeholders (now and then a let, which a message cannot
+// hold: outside the subset); the JavaScript is the children's statements one after the other
+func (g *cexprGen) msg() string {
+	var items []string
+	for i := 1 + g.r.Intn(3); i > 0; i-- {
+		switch g.r.Intn(3) {
+		case 0:
+			items = append(items, "(sraw "+sx(g.r.Pick([]string{"Hello ", "b c", "<b>", "!", "it's"}))+")")
+		case 1:
+			items = append(items, "(sprint "+g.expr(g.r.Intn(3), 2)+")")
+		default:
+			items = append(items, g.call(0))
+		}
+	}
+	if g.r.Chance(5) {
+		items = append(items, "(slet "+sx("y")+" (cint 1))")
+	}
+	return "(smsg (blk " + strings.Join(items, " ") + "))"
+}
+
 func (g *cexprGen) stmt(d int) string {
+	if g.r.Chance(8) {
+		return g.call(d)
+	}
+	if g.r.Chance(4) {
+		return g.msg()
+	}
 	k := g.r.Intn(12)
 	if d <= 0 && k >= 6 {
 		k = g.r.Intn(6)
@@ -206,7 +262,7 @@ func c04StmtTie(e *env, n int) {
 	for u := 0; u*per < len(items); u++ {
 		unit := jsNodeUnit{ID: u + 1, Mode: "es5"}
 		var code strings.Builder
-		code.WriteString("var tie = {};\n")
+		code.WriteString("var tie = {};\n" + c04StmtEcho)
 		file := jsNodeFile{Name: fmt.Sprintf("stmts%d", u)}
 		for k := u * per; k < len(items) && k < (u+1)*per; k++ {
 			it := items[k]
@@ -260,7 +316,7 @@ func c04StmtTie(e *env, n int) {
 				cls = "outside-subset"
 			}
 			e.res.Count("stmt:"+it.req, it.sout != "none", "minijs-stmt:"+cls+":"+it.cls)
-			for _, f := range []string{"var ", " = '';", "} else if (", "} else {", "switch (", "default:", "case ", "for (var ", ".length;", " > 0) {", " == 0)", " - 1)", "Math.ceil(", " + '-';"} {
+			for _, f := range []string{"var ", " = '';", "} else if (", "} else {", "switch (", "default:", "case ", "for (var ", ".length;", " > 0) {", " == 0)", " - 1)", "Math.ceil(", " + '-';", "tie.echo({}", "tie.echo(opt_data,", "tie.echo(soy.$$augmentMap(", "tie.echo(opt_data.a,", "var param_"} {
 				if strings.Contains(it.text, f) {
 					e.res.Histogram["minijs-stmt:has:"+strings.TrimSpace(f)]++
 				}
